@@ -151,7 +151,7 @@ def episode1(ctx: Ctx, chk) -> None:
     chk.instance(rule)
     if cal is None:
         raise AnalysisError("EPISODE-1: no outgoing internal handler")
-    f = cal.chain()[-1].func
+    f = ctx.inl(cal.chain()[-1].func)  # bookkeeping helpers (a method of the buffer record ...) written out
     cn2 = Canon(I, f)
     st = sb.store_sites(ctx, f, "internal_messages")
     key = f"{f.fq}::marker-key"
@@ -240,12 +240,12 @@ def who_marker(ctx: Ctx, chk) -> None:
         if cal is not None:
             out_defs |= set(tables.chain_defs(ctx, cal, V))
     n = 0
-    for f in ctx.prog.all_functions():
+    for f0, f in sb.owner_functions(ctx):
         for node, key in sb.removal_sites(ctx, f, "internal_messages"):
             n += 1
             chk.instance(rule)
             k = fkey(f, node) + "::removal"
-            if f in pres_defs and key is not None and not isinstance(key, sb.HelperKey) and any(Canon(I, f).canon(key) == f"(In.node_id, In.child_id, {pv})" for pv in pres_defs[f]):
+            if f0 in pres_defs and key is not None and not isinstance(key, sb.HelperKey) and any(Canon(I, f).canon(key) == f"(In.node_id, In.child_id, {pv})" for pv in pres_defs[f0]):
                 chk.ok(rule, k, "removal of the presented node's marker in the presentation handler", ctx.loc(f, node))
             else:
                 chk.refute(rule, k, f"`{norm(node)[:70]}` in {f.qualname} removes outstanding-request markers outside the presentation handling of that node: the next rejected message of a node that has not presented itself writes a second request in the same episode", ctx.loc(f, node))
@@ -253,7 +253,7 @@ def who_marker(ctx: Ctx, chk) -> None:
             n += 1
             chk.instance(rule)
             k = fkey(f, st) + "::store"
-            if f in out_defs:
+            if f0 in out_defs:
                 chk.ok(rule, k, "marker recorded by the outgoing internal handler", ctx.loc(f, st), sample=False)
             else:
                 chk.refute(rule, k, f"`{norm(st)[:70]}` in {f.qualname} records a marker outside the outgoing internal handler: a request that was never written counts as sent", ctx.loc(f, st))
